@@ -1,0 +1,128 @@
+//go:build verif
+
+package airgapped
+
+// The airgapped machine's operation handling (checked by /verif/gocv; comment-only file).
+//
+// Ghost state
+//   $handled      GetOperationResult produced a result for the operation being processed
+//   $handlerErr   the step handler refused the operation (its error becomes an error report)
+//   $dealsOK      dkg.ProcessDeals accepted every private deal of this round (decrypts, matches the broadcast commitments)
+//   $responsesOK  dkg.ProcessResponses certified the round
+//   $keyrings     number of BLS keyrings written to the database
+//   $logged       number of operations appended to the operation log
+//@ ghost var $handled bool
+//@ ghost var $handlerErr bool
+//@ ghost var $dealsOK bool
+//@ ghost var $responsesOK bool
+//@ ghost var $keyrings int
+//@ ghost var $logged int
+//@ import client "github.com/lidofinance/dc4bc/client/types"
+//@ import dkg "github.com/lidofinance/dc4bc/dkg"
+
+// (the state they change lives inside kyber objects, which are opaque here)
+//@ func (*github.com/lidofinance/dc4bc/dkg.DKG).ProcessDeals
+//@   assumed
+//@   pure
+//@   epilogue $dealsOK = (result1 == nil)
+//@ func (*github.com/lidofinance/dc4bc/dkg.DKG).ProcessResponses
+//@   assumed
+//@   pure
+//@   epilogue $responsesOK = (result == nil)
+
+// ---- the operation log is written after the step succeeded (a replay must never meet an operation that failed)
+//@ func (*Machine).storeOperation
+//@   nosafety
+//@   requires am != nil
+//@   requires[C12.log.after] $handled
+//@   modifies *
+//@   modifies $logged
+//@   ensures $logged <= old($logged) + 1
+
+//@ func (*Machine).GetOperationResult
+//@   nosafety
+//@   requires am != nil
+//@   modifies *
+//@   modifies $handlerErr, $dealsOK, $responsesOK, $keyrings, $handled, $reader, $readerSeed, $ciphers, $bufc
+//@   epilogue $handled = (result1 == nil)
+//@   ensures $logged == old($logged)
+
+//@ func (*Machine).ProcessOperation
+//@   nosafety
+//@   requires am != nil
+//@   prologue $handled = false
+//@   modifies *
+//@   modifies $handlerErr, $dealsOK, $responsesOK, $keyrings, $logged, $reader, $readerSeed, $ciphers, $bufc
+//@   ensures[C12.log.once] $logged <= old($logged) + 1
+//@   ensures[C12.log.success] result1 != nil && !$handled ==> $logged == old($logged)
+//@   ensures[C12.log.replay] !storeOperation ==> $logged == old($logged)
+
+// ---- step handlers
+// rounds known to the machine are fully initialised instances (the commits step stores an instance only after InitDKGInstance succeeded)
+//@ spec func wfMachine(am *Machine) bool = am != nil && am.dkgInstances != nil && (forall k string :: k in am.dkgInstances ==> am.dkgInstances[k] != nil && am.dkgInstances[k].instance != nil)
+// The dealer's secret polynomial must differ from round to round: the entropy handed to the round's generator
+// is the round seed sha256(round id ++ base seed), the same one the round's suite is built from.
+//@ func (*Machine).handleStateDkgCommitsAwaitConfirmations
+//@   safety C18
+//@   safetykinds nil dereference, index out of range
+//@   requires wfMachine(am) && o != nil
+//@   loop 0 invariant forall j int :: 0 <= j && j <= $i ==> payload[j] != nil
+//@   modifies *
+//@   modifies $handlerErr, $reader, $readerSeed
+//@   epilogue $handlerErr = (result != nil)
+//@   assert@call InitDKGInstance[C04.round.entropy] content(seed) == acontent(loc(dkgSeed), 32)
+
+// A private deal that cannot be decrypted, is malformed or contradicts the dealer's commitments makes the step
+// fail (and the failure becomes an error report, see GetOperationResult); the round stays known.
+//@ func (*Machine).handleStateDkgResponsesAwaitConfirmations
+//@   safety C18
+//@   safetykinds nil dereference, index out of range
+//@   requires wfMachine(am) && o != nil
+//@   prologue $dealsOK = false
+//@   modifies *
+//@   modifies $handlerErr, $dealsOK
+//@   epilogue $handlerErr = (result != nil)
+//@   loop 0 invariant o.DKGIdentifier == old(o.DKGIdentifier) && am.dkgInstances == old(am.dkgInstances) && (old(o.DKGIdentifier in am.dkgInstances) ==> (o.DKGIdentifier in am.dkgInstances))
+//@   ensures[C11.refuse] result == nil ==> $dealsOK
+//@   ensures[C11.keepround] result != nil ==> unchanged("map[string]*dkg.DKG", "Machine.dkgInstances")
+
+// A share is stored only for a certified round: every response was processed and nobody complained.
+//@ func (*Machine).saveBLSKeyring
+//@   nosafety
+//@   requires[C11.certified,C02.certified] $responsesOK
+//@   modifies *
+//@   modifies $keyrings, $bufc, $ciphers
+//@   ensures $keyrings <= old($keyrings) + 1
+//@ func (*Machine).handleStateDkgMasterKeyAwaitConfirmations
+//@   safety C18
+//@   safetykinds nil dereference, index out of range
+//@   requires wfMachine(am) && o != nil
+//@   prologue $responsesOK = false
+//@   modifies *
+//@   modifies $handlerErr, $responsesOK, $keyrings, $bufc, $ciphers
+//@   epilogue $handlerErr = (result != nil)
+//@   loop 0 invariant o.DKGIdentifier == old(o.DKGIdentifier) && am.dkgInstances == old(am.dkgInstances) && (old(o.DKGIdentifier in am.dkgInstances) ==> (o.DKGIdentifier in am.dkgInstances))
+//@   ensures[C11.nokey] result != nil && !$responsesOK ==> $keyrings == old($keyrings)
+
+// ---- what is written to the machine's database as key material is the output of encrypt under the operator's key
+//   $ciphers = byte strings produced by encrypt so far, $cipherKeysOK = every one of them was made with am.encryptionKey
+//@ ghost var $ciphers set[bytesvalue]
+//@ func encrypt
+//@   nosafety
+//@   pure
+//@   modifies $ciphers
+//@   epilogue $ciphers = ite(result1 == nil, with(old($ciphers), content(result0), true), old($ciphers))
+//@ func (*Machine).saveBLSKeyring behavior secrecy
+//@   nosafety
+//@   requires true
+//@   modifies *
+//@   modifies $keyrings, $bufc, $ciphers
+//@   assert@call encrypt[C04.db.encrypted] content(key) == content(am.encryptionKey)
+//@   assert@call Put[C04.db.encrypted] content(arg1) in $ciphers
+//@ func (*Machine).SaveKeysToDB
+//@   nosafety
+//@   requires am != nil
+//@   modifies *
+//@   modifies $ciphers
+//@   assert@call encrypt[C04.db.encrypted] content(key) == content(am.encryptionKey)
+//@   assert@call Put[C04.db.encrypted] (content(arg0) == bytesof("private_key") || content(arg0) == bytesof("public_key")) ==> (content(arg1) in $ciphers)
